@@ -23,8 +23,8 @@ Definition no_overlap (ws : list str) : bool :=
   forallb (fun w1 => forallb (fun x => forallb (fun w2 => negb (comparable x w2)) ws) (proper_suffixes w1)) ws.
 Definition prefix_free (ws : list str) : bool :=
   forallb (fun w1 => forallb (fun w2 => negb (is_prefix w1 w2) || str_eqb w1 w2) ws) ws.
-Definition plain_word (g : byte) (w : str) : bool :=
-  forallb (fun c => negb (byte_eqb c g) && negb (byte_eqb c cdot)) w.
+Definition plain_word (g : str) (w : str) : bool :=
+  forallb (fun c => negb (has c g) && negb (byte_eqb c cdot)) w.
 
 Lemma is_prefix_app a : forall b, is_prefix a b = true <-> exists z, b = a ++ z.
 Proof.
@@ -47,29 +47,31 @@ Proof.
       * right. exists z. reflexivity.
 Qed.
 
-Lemma repeat_cancel (g c : byte) k : forall k' X X', c <> g -> repeat g k ++ c :: X = repeat g k' ++ c :: X' -> k = k' /\ X = X'.
+Lemma gaps_cancel (g : str) (c : byte) gs : forall gs' X X', has c g = false -> all_in g gs = true -> all_in g gs' = true ->
+  gs ++ c :: X = gs' ++ c :: X' -> gs = gs' /\ X = X'.
 Proof.
-  induction k as [|k IH]; intros [|k'] X X' Hc H; cbn in H.
-  - inversion H. auto.
-  - inversion H. congruence.
-  - inversion H. congruence.
-  - inversion H. destruct (IH _ _ _ Hc H1) as [-> ->]. auto.
+  unfold all_in. induction gs as [|x gs IH]; intros [|y gs'] X X' Hc H1 H2 E; cbn in E.
+  - inversion E. auto.
+  - inversion E; subst y. cbn in H2. rewrite Hc in H2. discriminate.
+  - inversion E; subst x. cbn in H1. rewrite Hc in H1. discriminate.
+  - inversion E; subst y. cbn [forallb] in H1, H2. apply andb_prop in H1, H2.
+    destruct (IH gs' X X' Hc (proj2 H1) (proj2 H2) H3) as [-> ->]. auto.
 Qed.
 
-Lemma plain_cons g c r : plain_word g (c :: r) = true -> c <> g /\ byte_eqb c cdot = false /\ plain_word g r = true.
+Lemma plain_cons g c r : plain_word g (c :: r) = true -> has c g = false /\ byte_eqb c cdot = false /\ plain_word g r = true.
 Proof.
   cbn. intros H. apply andb_prop in H. destruct H as [H1 H2]. apply andb_prop in H1. destruct H1 as [Ha Hb].
-  apply negb_true_iff in Ha, Hb. apply byte_eqb_neq in Ha. auto.
+  apply negb_true_iff in Ha, Hb. auto.
 Qed.
 
 (* shape of a match of a plain word with at least two letters *)
 Lemma irel_plain_step g c c' r t : plain_word g (c :: c' :: r) = true -> irel (compile_word (Some g) (c :: c' :: r)) t ->
-  exists k t2, t = c :: repeat g k ++ t2 /\ irel (compile_word (Some g) (c' :: r)) t2.
+  exists gs t2, t = c :: gs ++ t2 /\ all_in g gs = true /\ irel (compile_word (Some g) (c' :: r)) t2.
 Proof.
   intros Hp H. apply plain_cons in Hp. destruct Hp as (_ & Hd & _).
   change (compile_word (Some g) (c :: c' :: r)) with (item_of c :: IStar g :: compile_word (Some g) (c' :: r)) in H.
-  unfold item_of at 1 in H. rewrite Hd in H. inversion H as [|? ? ? H1| |]; subst. inversion H1 as [| | |? k ? t' H2]; subst.
-  exists k, t'. auto.
+  unfold item_of at 1 in H. rewrite Hd in H. inversion H as [|? ? ? H1| |]; subst. inversion H1 as [| | |? gs ? t' Hgs H2]; subst.
+  exists gs, t'. auto.
 Qed.
 Lemma irel_plain_one g c t : plain_word g [c] = true -> irel (compile_word (Some g) [c]) t -> t = [c].
 Proof.
@@ -80,7 +82,7 @@ Lemma irel_plain_head g c r t : plain_word g (c :: r) = true -> irel (compile_wo
 Proof.
   intros Hp H. destruct r as [|c' r].
   - apply irel_plain_one in H; [|exact Hp]. subst. eauto.
-  - apply irel_plain_step in H; [|exact Hp]. destruct H as (k & t2 & -> & _). eauto.
+  - apply irel_plain_step in H; [|exact Hp]. destruct H as (k & t2 & -> & _ & _). eauto.
 Qed.
 
 (* a plain word matches at most one prefix of a given text *)
@@ -92,31 +94,33 @@ Proof.
   - destruct r as [|c' r].
     + apply irel_plain_one in H, H'; try exact Hp. congruence.
     + pose proof Hp as Hp0. apply plain_cons in Hp. destruct Hp as (_ & _ & Hp).
-      destruct (irel_plain_step _ _ _ _ _ Hp0 H) as (k & t2 & -> & H2).
-      destruct (irel_plain_step _ _ _ _ _ Hp0 H') as (k' & t2' & -> & H2').
+      destruct (irel_plain_step _ _ _ _ _ Hp0 H) as (k & t2 & -> & Hk & H2).
+      destruct (irel_plain_step _ _ _ _ _ Hp0 H') as (k' & t2' & -> & Hk' & H2').
       destruct (irel_plain_head _ _ _ _ Hp H2) as (x & ->). destruct (irel_plain_head _ _ _ _ Hp H2') as (x' & ->).
       cbn in E. inversion E as [E1]. rewrite <- !app_assoc in E1. cbn in E1.
       apply plain_cons in Hp. destruct Hp as (Hc & _ & _).
-      apply repeat_cancel in E1; [|exact Hc]. destruct E1 as [-> E1].
+      apply (gaps_cancel g) in E1; [|exact Hc|exact Hk|exact Hk']. destruct E1 as [-> E1].
       f_equal. f_equal. apply (IH (c' :: x) (c' :: x') u u'); auto.
       * apply plain_cons in Hp0. tauto.
       * cbn. f_equal. exact E1.
 Qed.
 
-Lemma skipn_repeat_le {A} (x : A) j : forall k t, (k <= j)%nat -> skipn k (repeat x j ++ t) = repeat x (j - k) ++ t.
+Lemma skipn_gaps_lt g gs : forall k t, (k < length gs)%nat -> all_in g gs = true ->
+  exists x rest, skipn k (gs ++ t) = x :: rest /\ has x g = true.
 Proof.
-  induction j as [|j IH]; intros [|k] t H; cbn; try reflexivity; try lia. apply IH. lia.
+  unfold all_in. induction gs as [|y gs IH]; intros k t Hk Hg; cbn in Hk; [lia|].
+  cbn [forallb] in Hg. apply andb_prop in Hg. destruct Hg as [Hy Hg]. destruct k as [|k].
+  - exists y, (gs ++ t). auto.
+  - cbn [app skipn]. apply IH; [lia|exact Hg].
 Qed.
-Lemma skipn_repeat_gt {A} (x : A) j k t : (j <= k)%nat -> skipn k (repeat x j ++ t) = skipn (k - j) t.
-Proof.
-  intros H. rewrite skipn_app, repeat_length. rewrite skipn_all2 by (rewrite repeat_length; lia). reflexivity.
-Qed.
+Lemma skipn_gaps_ge (gs : str) k t : (length gs <= k)%nat -> skipn k (gs ++ t) = skipn (k - length gs) t.
+Proof. intros H. rewrite skipn_app. rewrite skipn_all2 by lia. reflexivity. Qed.
 Lemma skipn_skipn_add {A} (s : list A) : forall b k, skipn k (skipn b s) = skipn (b + k) s.
 Proof. induction s as [|x s IH]; intros [|b] k; cbn; try reflexivity; [now rewrite skipn_nil|apply IH]. Qed.
 
-(* a position strictly inside a match of a plain word that holds a letter starts a proper suffix of the word *)
+(* a position strictly inside a match of a plain word that holds a non-gap character starts a proper suffix of the word *)
 Lemma suffix_at_letter g w1 : forall t1 k, plain_word g w1 = true -> irel (compile_word (Some g) w1) t1 ->
-  (0 < k < length t1)%nat -> (exists x rest, skipn k t1 = x :: rest /\ x <> g) ->
+  (0 < k < length t1)%nat -> (exists x rest, skipn k t1 = x :: rest /\ has x g = false) ->
   In (degap g (skipn k t1)) (proper_suffixes w1).
 Proof.
   induction w1 as [|c r IH]; intros t1 k Hp H Hk Hx.
@@ -124,15 +128,15 @@ Proof.
   - destruct r as [|c' r].
     + apply irel_plain_one in H; [|exact Hp]. subst. cbn in Hk. lia.
     + pose proof Hp as Hp0. apply plain_cons in Hp. destruct Hp as (_ & _ & Hp).
-      destruct (irel_plain_step _ _ _ _ _ Hp0 H) as (j & t2 & -> & H2).
-      destruct k as [|k0]; [lia|]. cbn [skipn] in *. cbn [length] in Hk. rewrite app_length, repeat_length in Hk.
+      destruct (irel_plain_step _ _ _ _ _ Hp0 H) as (gs & t2 & -> & Hgs & H2).
+      destruct k as [|k0]; [lia|]. cbn [skipn] in *. cbn [length] in Hk. rewrite app_length in Hk.
       change (proper_suffixes (c :: c' :: r)) with ((c' :: r) :: proper_suffixes (c' :: r)).
-      destruct (Nat.lt_trichotomy k0 j) as [Hlt|[Heq|Hgt]].
-      * exfalso. destruct Hx as (x & rest & E & Hne). rewrite skipn_repeat_le in E by lia.
-        destruct (j - k0)%nat as [|d] eqn:Ed; [lia|]. cbn in E. inversion E. congruence.
-      * subst k0. rewrite skipn_repeat_gt by lia. rewrite Nat.sub_diag. cbn [skipn]. left.
+      destruct (Nat.lt_trichotomy k0 (length gs)) as [Hlt|[Heq|Hgt]].
+      * exfalso. destruct Hx as (x & rest & E & Hne).
+        destruct (skipn_gaps_lt g gs k0 t2 Hlt Hgs) as (x' & rest' & E' & Hx'). rewrite E' in E. inversion E; subst. congruence.
+      * subst k0. rewrite skipn_gaps_ge by lia. rewrite Nat.sub_diag. cbn [skipn]. left.
         symmetry. apply irel_degap; assumption.
-      * right. rewrite skipn_repeat_gt by lia. rewrite skipn_repeat_gt in Hx by lia.
+      * right. rewrite skipn_gaps_ge by lia. rewrite skipn_gaps_ge in Hx by lia.
         apply IH; auto. lia.
 Qed.
 
@@ -177,7 +181,7 @@ Proof.
     unfold wf_sub in Hwf. apply andb_prop in Hwf. destruct Hwf as [_ Hne'].
     pose proof (In_forallb _ _ _ Hne' Hw) as Hwne. destruct w as [|c r]; [discriminate|].
     destruct (irel_plain_head _ _ _ _ Pw Hr) as (t' & Et). apply plain_cons in Pw. destruct Pw as (Hcg & _ & _).
-    assert (Hx : exists x rest, skipn k t1 = x :: rest /\ x <> g).
+    assert (Hx : exists x rest, skipn k t1 = x :: rest /\ has x g = false).
     { destruct (skipn k t1) as [|x rest] eqn:Esk.
       - apply (f_equal (@length _)) in Esk. rewrite skipn_length in Esk. cbn in Esk. lia.
       - exists x, rest. split; [reflexivity|]. rewrite Et in Ep. cbn in Ep. inversion Ep. congruence. }
@@ -191,8 +195,21 @@ Proof.
     rewrite Hc in H. discriminate.
 Qed.
 
-(* the booleans hold for the built-in patterns *)
-Lemma start_stop_once : forall sub, (sub = bs "start"%bs \/ sub = bs "stop"%bs) ->
-  wf_sub sub = true /\ forallb (plain_word "-"%byte) (words sub) = true /\
+(* the booleans hold for the built-in patterns, for every gap string over the gap symbols *)
+Lemma letter_not_gap g : forallb gap_char_ok g = true -> forall c, is_alpha c = true -> has c g = false.
+Proof.
+  induction g as [|x g IH]; intros H c Hc; [reflexivity|]. cbn [forallb] in H. apply andb_prop in H. destruct H as [Hx H].
+  unfold has. cbn [existsb]. fold (has c g). rewrite (IH H c Hc).
+  assert (E : x = "-"%byte \/ x = "."%byte \/ x = "~"%byte) by (destruct x; vm_compute in Hx; try discriminate; auto).
+  destruct E as [->|[->| ->]]; destruct c; vm_compute in Hc; try discriminate; reflexivity.
+Qed.
+Lemma start_stop_once : forall g sub, forallb gap_char_ok g = true -> (sub = bs "start"%bs \/ sub = bs "stop"%bs) ->
+  wf_sub sub = true /\ forallb (plain_word g) (words sub) = true /\
   prefix_free (words sub) = true /\ no_overlap (words sub) = true.
-Proof. intros sub [->| ->]; vm_compute; auto. Qed.
+Proof.
+  intros g sub Hg Hs.
+  assert (P : forall c, is_alpha c = true -> negb (has c g) && negb (byte_eqb c cdot) = true).
+  { intros c Hc. rewrite (letter_not_gap g Hg c Hc). destruct c; vm_compute in Hc; try discriminate; reflexivity. }
+  destruct Hs as [->| ->]; (split; [vm_compute; reflexivity|]); (split; [|split; vm_compute; reflexivity]);
+    cbv [words expand_sub]; cbn [str_eqb]; vm_compute split_on; cbn [forallb plain_word]; rewrite !P by reflexivity; reflexivity.
+Qed.
